@@ -329,6 +329,9 @@ def run(ctx):
         ctx.check(not fa.may(i, "ruleset-failed"), "hooks-only-after-rulesets", "never_after", add.loc(i),
                   "drop-in hooks are added only if every ruleset of the unit was accepted",
                   "drop-in hooks can be added although a ruleset of the unit was refused")
+    # the match itself (component-wise; '*' is one whole component): same rule as C16
+    from .C16 import pattern_match_rule
+    pattern_match_rule(ctx)
     # canRunOnCgroup: true iff some pattern matches
     can = ctx.fn1("Oomd::Engine::PrekillHook::canRunOnCgroup")
     fc = Flow(P, can, cg=ctx.cg)
